@@ -108,7 +108,13 @@ def run_shard(rec, tier, seed, shard, nshards):
 
     # ------------------------------------------------ exhaustive DFS
     max_s, max_p = 3, 4
-    shapes = sorted({tuple(sorted(s, reverse=True)) for s in itertools.product(range(0, max_p + 1), repeat=max_s) if sum(s) > 0})
+    shapes = {tuple(sorted(s, reverse=True)) for s in itertools.product(range(0, max_p + 1), repeat=max_s) if sum(s) > 0}
+    if tier == "thorough":
+        # four samples with up to three plates each (<= 12 plates, memoised on the batch set), and 4 x 5 / 5 x 4
+        # shapes memoised on per-sample counts
+        shapes |= {tuple(sorted(s, reverse=True)) for s in itertools.product(range(1, 4), repeat=4)}
+        shapes |= {(5, 5, 5, 5), (5, 4, 3, 2), (4, 4, 4, 4, 4), (6, 6, 2), (6, 1, 1, 1)}
+    shapes = sorted(shapes)
     configs = []
     for shape in shapes:
         shape = tuple(x for x in shape if x > 0)
@@ -131,7 +137,7 @@ def run_shard(rec, tier, seed, shard, nshards):
         for p in screen.plates:
             sample_of[int(p.plate_id)] = int(p.sample_ids[0])
         unobserved = sorted(int(p.plate_id) for p in screen.plates if not p.is_observed)
-        canonical = tot > (9 if tier == "quick" else 12)
+        canonical = tot > (9 if tier == "quick" else 11)
         seen = set()
 
         def key(batch):
